@@ -7,6 +7,7 @@ import (
 	"fmt"
 	"io"
 	"net/http"
+	"sort"
 	"strings"
 
 	"github.com/thushan/olla/internal/core/constants"
@@ -19,6 +20,7 @@ type StreamingState struct {
 	currentBlock     *ContentBlock
 	toolCallBuffers  map[int]*strings.Builder // keyed by tool index, avoids string formatting overhead
 	toolIndexToBlock map[int]int              // maps tool index to content block index for finalisation
+	pendingTools     map[int]*pendingToolCall // tool calls whose id and name are still arriving
 	messageID        string
 	model            string
 	lastFinishReason string
@@ -32,6 +34,16 @@ type StreamingState struct {
 	sawMalformed     bool   // at least one "data:" line carried something that is not JSON
 	backendError     string // the backend reported a failure inside its stream ({"error": ...} instead of a chunk)
 	sawDone          bool   // the [DONE] marker was seen: whatever follows is not part of the completion
+}
+
+// pendingToolCall collects the identifying fields of one tool call. Backends normally send id and
+// name whole in the call's first fragment, but like the arguments they may arrive cut into
+// contiguous pieces; the block is opened once they are known to be complete, which is when the
+// first piece of the arguments (or something other than this call) arrives.
+type pendingToolCall struct {
+	id   strings.Builder
+	name strings.Builder
+	open bool
 }
 
 // convert openai sse stream to anthropic format
@@ -48,6 +60,7 @@ func (t *Translator) TransformStreamingResponse(ctx context.Context, openaiStrea
 		contentBlocks:    make([]ContentBlock, 0, 4),
 		toolCallBuffers:  make(map[int]*strings.Builder),
 		toolIndexToBlock: make(map[int]int),
+		pendingTools:     make(map[int]*pendingToolCall),
 	}
 
 	// sync streaming for now (async needs more work for agent workflows)
@@ -279,6 +292,10 @@ func (t *Translator) handleContentDelta(content string, state *StreamingState, w
 	if err := t.ensureMessageStartSent(state, w, rc); err != nil {
 		return err
 	}
+	// text after a tool call whose fields were still being collected: that call is complete
+	if err := t.openPendingTools(state, w, rc); err != nil {
+		return err
+	}
 
 	// start new text block if needed (anthropic wants block_start before deltas)
 	if state.currentBlock == nil || state.currentBlock.Type != contentTypeText {
@@ -468,15 +485,36 @@ func (t *Translator) handleToolCallsDelta(toolCalls []interface{}, state *Stream
 			state.toolCallBuffers[data.toolIndex] = &strings.Builder{}
 		}
 
-		// start block when we get id + name
-		if data.id != "" && data.name != "" {
-			if err := t.initializeToolBlock(data.id, data.name, data.toolIndex, state, w, rc); err != nil {
+		pending := state.pendingTools[data.toolIndex]
+		if pending != nil && data.id != "" && data.name != "" && (pending.open || (pending.id.Len() > 0 && pending.name.Len() > 0)) {
+			// a complete id and name for an index that already has them: a new call that reuses the
+			// index (some backends number every call 0), not a continuation of the previous one
+			if err := t.openPendingTools(state, w, rc); err != nil {
 				return err
 			}
+			pending = nil
+		}
+		if pending == nil {
+			// another call begins: whatever was still collecting its fields is complete
+			if err := t.openPendingTools(state, w, rc); err != nil {
+				return err
+			}
+			pending = &pendingToolCall{}
+			state.pendingTools[data.toolIndex] = pending
+		}
+		if !pending.open {
+			pending.id.WriteString(data.id)
+			pending.name.WriteString(data.name)
 		}
 
-		// buffer args chunks and send as partial_json
+		// buffer args chunks and send as partial_json; the first piece of the arguments means id
+		// and name are complete, so the block starts here
 		if data.arguments != "" {
+			if !pending.open {
+				if err := t.openPendingTools(state, w, rc); err != nil {
+					return err
+				}
+			}
 			if err := t.sendToolArgumentsDelta(data.arguments, data.toolIndex, state, w, rc); err != nil {
 				return err
 			}
@@ -486,8 +524,34 @@ func (t *Translator) handleToolCallsDelta(toolCalls []interface{}, state *Stream
 	return nil
 }
 
+// openPendingTools starts the content block of every tool call whose id and name have been
+// collected but whose block has not been opened yet (lowest tool index first)
+func (t *Translator) openPendingTools(state *StreamingState, w http.ResponseWriter, rc *http.ResponseController) error {
+	indexes := make([]int, 0, len(state.pendingTools))
+	for idx, pending := range state.pendingTools {
+		// (a call that never gets an id, or never a name, is not a tool call the client could answer:
+		// as before, no block is started for it)
+		if !pending.open && pending.id.Len() > 0 && pending.name.Len() > 0 {
+			indexes = append(indexes, idx)
+		}
+	}
+	sort.Ints(indexes)
+	for _, idx := range indexes {
+		pending := state.pendingTools[idx]
+		pending.open = true
+		if err := t.initializeToolBlock(pending.id.String(), pending.name.String(), idx, state, w, rc); err != nil {
+			return err
+		}
+	}
+	return nil
+}
+
 // send final events, parse tool buffers, determine stop_reason
 func (t *Translator) finalizeStream(state *StreamingState, w http.ResponseWriter, rc *http.ResponseController, original *http.Request) error {
+	// a tool call without any arguments never saw the fragment that opens its block
+	if err := t.openPendingTools(state, w, rc); err != nil {
+		return err
+	}
 	// close current block if still open
 	if state.currentBlock != nil {
 		if err := t.writeEvent(w, "content_block_stop", map[string]interface{}{
